@@ -1,6 +1,7 @@
 package regexanalysis
 
 import (
+	"errors"
 	"fmt"
 	"math"
 	"math/bits"
@@ -15,6 +16,11 @@ type (
 		MaxLength uint
 	}
 )
+
+// number of branches ConstantSuffix walks before it gives up
+const constantSuffixBudget = 1 << 18
+
+var errConstantSuffixBudget = errors.New("constant suffix analysis too expensive")
 
 func NamedCaptures(regexString string) (map[string][]string, error) {
 	r, err := syntax.Parse(regexString, syntax.Perl)
@@ -63,8 +69,17 @@ func ConstantSuffix(regexString string) ([]byte, error) {
 	if err != nil {
 		return nil, err
 	}
+	// The walk follows every path through the alternations of the program and is
+	// not memoised (what a branch returns depends on the bytes collected before
+	// it), so its cost doubles with every alternation in sequence: give up and
+	// report no suffix when it gets too expensive.
+	budget := constantSuffixBudget
 	evaluate := (func(s *[]byte, pos uint32, seen []uint32) error)(nil)
 	evaluate = func(s *[]byte, pos uint32, seen []uint32) error {
+		if budget == 0 {
+			return errConstantSuffixBudget
+		}
+		budget--
 		for {
 			i := p.Inst[pos]
 			switch i.Op {
@@ -114,7 +129,13 @@ func ConstantSuffix(regexString string) ([]byte, error) {
 		}
 	}
 	s := []byte(nil)
-	return s, evaluate(&s, uint32(p.Start), nil)
+	if err := evaluate(&s, uint32(p.Start), nil); err != nil {
+		if err == errConstantSuffixBudget {
+			return nil, nil
+		}
+		return nil, err
+	}
+	return s, nil
 }
 
 func AcceptedLength(regexString string) (AcceptedLengths, error) {
